@@ -398,3 +398,14 @@ define void @h() !dbg !6 {
 !0 = !{!"a"}
 !1 = !{!"b"}
 !2 = !{!"c"}
+;;; ATOM md/distinct-specialized-nodes
+!llvm.module.flags = !{!9}
+!named = !{!0, !1, !2, !3, !4, !5, !6}
+!0 = distinct !GenericDINode(tag: DW_TAG_member, header: "h", operands: {!1})
+!1 = !GenericDINode(tag: DW_TAG_member, header: "k")
+!2 = distinct !DIBasicType(name: "int", size: 32, encoding: DW_ATE_signed)
+!3 = distinct !DIFile(filename: "a.c", directory: "/")
+!4 = distinct !DIExpression(DW_OP_deref)
+!5 = distinct !{!0, !2}
+!6 = distinct !DISubrange(count: 4)
+!9 = !{i32 2, !"Debug Info Version", i32 3}
